@@ -65,6 +65,39 @@ def permute(rng, d):
     return d2, perm
 
 
+_BASE = {"$schema": "https://gobl.org/draft-0/bill/invoice", "uuid": "3aea7b56-59d8-4beb-90bd-f8f280d852a0",
+         "issue_date": "2022-02-01", "code": "S-1",
+         "supplier": {"tax_id": {"country": "ES", "code": "B98602642"}, "name": "P"},
+         "customer": {"tax_id": {"country": "ES", "code": "54387763P"}, "name": "C"}}
+_PIT = {"prices_include": "VAT", "rounding": "precise"}
+# RemoveIncludedTaxes corpus, first cases of every run (findings/C17.json):
+#  1. C17-rit-not-a-fixpoint (fixed): the stripped document discount 0.38/1.21 was calculated as 0.3140 and presented as 0.31
+#  2. the former witness of C17-rit-residue, which was of the same kind (charge 6105/1.24 = 4923.39 presented as 4923)
+#  3. C17-rit-residue as it remains (known): the stripped total with tax is the tie 0.50, the original one is 0
+#  4. its neighbour with original total 1: no discrepancy
+RIT_CORPUS = [
+    dict(_BASE, currency="EUR", tax=dict(_PIT),
+         lines=[{"quantity": "3", "item": {"name": "A", "price": "1.00"}, "taxes": [{"cat": "VAT", "rate": "standard"}]},
+                {"quantity": "7", "item": {"name": "B", "price": "1.37"}, "taxes": [{"cat": "VAT", "rate": "reduced"}]}],
+         discounts=[{"reason": "d", "amount": "0.38", "taxes": [{"cat": "VAT", "rate": "standard"}]}]),
+    dict(_BASE, currency="JPY", tax=dict(_PIT),
+         lines=[{"quantity": "0.5", "item": {"name": "x", "price": "157878"}}],
+         charges=[{"reason": "d", "taxes": [{"cat": "VAT", "percent": "6%"}], "percent": "12.5%", "base": "13592"},
+                  {"reason": "d", "taxes": [{"cat": "VAT", "percent": "24%"}], "amount": "6105"}]),
+    dict(_BASE, currency="JPY", tax=dict(_PIT),
+         lines=[{"quantity": "1", "item": {"name": "A", "price": "3"}, "taxes": [{"cat": "VAT", "percent": "0%"}]}],
+         discounts=[{"reason": "d", "amount": "3", "taxes": [{"cat": "VAT", "percent": "25%"}]}]),
+    dict(_BASE, currency="JPY", tax=dict(_PIT),
+         lines=[{"quantity": "1", "item": {"name": "A", "price": "4"}, "taxes": [{"cat": "VAT", "percent": "0%"}]}],
+         discounts=[{"reason": "d", "amount": "3", "taxes": [{"cat": "VAT", "percent": "25%"}]}]),
+]
+
+
+def same_strict_sign_or_zero(t0, t1):
+    """hypothesis of Props/C17.v remove_included_taxes_payable (Calc/RitProofs.v same_strict_sign_or_zero)"""
+    return (t0 > 0 and t1 > 0) or (t0 < 0 and t1 < 0) or t1 == 0
+
+
 def run(c):
     quick = c.tier == "quick"
     if not std_builds(c):
@@ -78,7 +111,7 @@ def run(c):
     g = cg.Gen(c.rng)
     g.calc_only = True      # combos that calculate but would not validate (rate key under a country without regime)
     n = 2500 if quick else 100000
-    docs = [g.doc() for _ in range(n)]
+    docs = copy.deepcopy(RIT_CORPUS) + [g.doc() for _ in range(n)]
     # surcharge-heavy Spanish documents under the precise rule: different surcharged rates of one category on rows of
     # different precision (the category surcharge is an accumulation over the rates, its precision must not depend on which comes first)
     g.eqs_bias = 0.9
@@ -153,31 +186,52 @@ def run(c):
     rdocs = [r for r in base_ok if (r["doc"].get("tax") or {}).get("prices_include")]
     res = cg.run3([r["doc"] for r in rdocs], prefix="c17", op_="rit")
     shown = 0
+    corr_broken = False
     for r0, r in zip(rdocs, res):
         d = r["doc"]
         c.count("remove-included-taxes", 1, json.dumps(d, sort_keys=True))
-        if r["go"] != r["model"]:
+        if r["go"] != r["model"] and not corr_broken:
+            corr_broken = True      # reported once; the implementation's outputs are still judged below (oracle P)
             c.report("correspondence broken: RemoveIncludedTaxes in the model differs from the implementation",
                      {"correspondence": "corr:C17:rit", "document": d, "implementation": r["go_raw"], "model": r["model_raw"]}, no_input=True)
-            break
         if is_err(r["go"]):
             if shown < 3:
                 shown += 1
                 c.report("RemoveIncludedTaxes refused a valid invoice", {"document": d})
             continue
         twt0 = q(r0["go"][1][7])
+        twt1 = q(r["go"][1][7])
         pay1 = q(r["go"][1][8])
         if twt0 != pay1:
-            fid = "C17-rit-residue" if abs(twt0 - pay1) <= Fraction(2, 10 ** cg.doc_meta(d)[2]) else None
-            if fid is None and cg.excess_fixed(d, r0["py"]):
-                fid = "C17-excess-decimals-feed-back"
+            # the residue is a whole number of minor units; adding it pulls a tie of the stripped total across zero only
+            # when the two totals with tax are not of the same strict sign (complement of the theorem's hypothesis)
+            fid = None
+            if abs(twt0 - pay1) <= Fraction(1, 10 ** cg.doc_meta(d)[2]) and not same_strict_sign_or_zero(twt0, twt1):
+                fid = "C17-rit-residue"
             if shown < 3 or fid:
                 shown += 0 if fid else 1
                 c.report("after RemoveIncludedTaxes payable %s differs from the original total with tax %s" % (pay1, twt0),
                          {"document": d, "implementation": r["go_raw"], "original_result": r0["go_raw"],
                           "clause": "payable equals the original total with tax, residue recorded in rounding"}, finding_id=fid)
+    # ---- ... and its result is a fixpoint: serialise, parse, calculate again changes no figure ----
+    rit_ok = [(r0, r) for r0, r in zip(rdocs, res) if not is_err(r["go"])]
+    res2 = cg.run3([r["doc"] for _, r in rit_ok], prefix="c17", op_="rit2")
+    shown = 0
+    for (r0, r1), r in zip(rit_ok, res2):
+        d = r["doc"]
+        c.count("remove-included-taxes-recalculated", 1, json.dumps(d, sort_keys=True))
+        if r["go"] != r["model"] and not corr_broken:
+            corr_broken = True
+            c.report("correspondence broken: RemoveIncludedTaxes followed by a calculation in the model differs from the implementation",
+                     {"correspondence": "corr:C17:rit2", "document": d, "implementation": r["go_raw"], "model": r["model_raw"]}, no_input=True)
+        if r["go"] != r1["go"]:        # every projected figure, with its precision
+            if shown < 3:
+                shown += 1
+                c.report("the document RemoveIncludedTaxes returns changes when it is calculated again",
+                         {"document": d, "operation": "rit2", "implementation": r["go_raw"], "after_remove_included_taxes": r1["go_raw"],
+                          "clause": "the result of RemoveIncludedTaxes is a fixpoint of calculation"})
     c.cov["rule"] = ("generated invoices (input variety of C01, both rules) inside the 2^52 domain; each is calculated, inverted once and twice, "
-                     "reordered (lines, discounts, charges, line discount/charge rows) and, when prices include tax, stripped of included taxes; "
+                     "reordered (lines, discounts, charges, line discount/charge rows) and, when prices include tax, stripped of included taxes and calculated once more; "
                      "distinct = distinct (operation, document); every case compares the implementation with the model and the implementation's outputs pairwise")
     if not proved:
         pr = c.proof
@@ -189,7 +243,7 @@ def replay(path):
     r = json.load(open(path))["replay"]
     build_harness()
     d = r["document"]
-    for op_ in ("calc", "invert", "rit"):
+    for op_ in ("calc", "invert", "rit", "rit2"):
         x = cg.run3([d], prefix="c01" if op_ == "calc" else "c17", op_=op_)[0]
         print(op_, "implementation:", x["go_raw"][:2000])
         print(op_, "model:         ", x["model_raw"][:2000])
